@@ -10,7 +10,7 @@
    the empty bus.  Fairness is never assumed silently: the liveness statements are given as a
    measure that every step of a named set of goroutines decreases, that no step increases, and
    that is positive only while one of those goroutines is enabled. *)
-From SC Require Import Base.Prelude Bus.Bus Bus.Pipe Bus.BusProofs Bus.PipeProofs.
+From SC Require Import Base.Prelude Bus.Bus Bus.Pipe Bus.BusProofs Bus.PipeProofs Bus.BusHist Bus.PipeStages Bus.Res Bus.ResProofs.
 
 (* ---- no send on a closed channel ---- *)
 (* no goroutine is ever blocked sending on a closed channel (which would panic at the close)
@@ -181,3 +181,202 @@ Example C10_nonvacuous_pullid_fixed : exists p,
   p_cancel p = true /\ input_closed p 2 = true /\
   exists p', prun p [PSrcClose; PExit 0%nat] = Some p' /\ all_stages_done p' = true.
 Proof. exact pullid_fixed_same_schedule. Qed.
+
+(* ======================================================================================
+   Whole histories of the bus: listeners added / cancelled / collected while Sends overlap
+   ====================================================================================== *)
+
+(* ONE statement for "an event reaches every listener that is live for the whole send exactly
+   once": whatever happens between the start of a Send (LCall) and its `return true` (LFinish) -
+   other Sends overlapping, listeners registering, cancels, collects by other senders - every
+   listener registered before the call and not cancelled at the return has the event, and has
+   no event twice. *)
+Theorem C10_send_history : forall n tr1 c1 s c2 tr2 c3 c4 X2 X3,
+  run (init n) tr1 = Some c1 -> step c1 (LCall s) = Some c2 -> run c2 tr2 = Some c3 ->
+  step c3 (LFinish s) = Some c4 ->
+  nth_error (ss c2) s = Some X2 -> nth_error (ss c3) s = Some X3 -> s_calls X3 = s_calls X2 ->
+  forall k K1 K4, nth_error (ls c1) k = Some K1 -> l_reg K1 = true ->
+    nth_error (ls c4) k = Some K4 -> l_cancel K4 = false ->
+    In (s, s_calls X2) (l_log K4) /\ NoDup (l_log K4).
+Proof. exact send_history. Qed.
+Print Assumptions C10_send_history.
+
+(* Bus.listeners under any interleaving of Listen, collect and Send: never a listener twice (so a
+   Send never serves one twice), always every registered listener that is not cancelled (collect
+   never drops a live one, a registration is never overwritten), only registered listeners *)
+Theorem C10_collect_keeps_live : forall n tr c, run (init n) tr = Some c ->
+  NoDup (blist c) /\
+  (forall k K, nth_error (ls c) k = Some K -> l_reg K = true -> l_cancel K = false -> In k (blist c)) /\
+  (forall k, In k (blist c) -> exists K, nth_error (ls c) k = Some K /\ l_reg K = true).
+Proof. exact collect_keeps_live. Qed.
+Print Assumptions C10_collect_keeps_live.
+
+(* "never reaches a channel after it was closed", as a statement about the rest of the history *)
+Theorem C10_log_frozen_after_close : forall n tr c tr' c' k K,
+  run (init n) tr = Some c -> nth_error (ls c) k = Some K -> l_closed K = true -> run c tr' = Some c' ->
+  exists K', nth_error (ls c') k = Some K' /\ l_log K' = l_log K /\ l_closed K' = true.
+Proof. exact log_frozen_after_close. Qed.
+Print Assumptions C10_log_frozen_after_close.
+
+(* ======================================================================================
+   One theorem per forwarding goroutine: input closed or context cancelled => it returns
+   (closing its output); no goroutine sends on a closed channel; composition
+   ====================================================================================== *)
+(* DropExcess (internal/minibus/util.go): returns as soon as its input is closed, whatever it holds *)
+Theorem C10_stage_drop_exits : forall p i h, stage_at p i = Some (StDrop h) -> input_closed p i = true ->
+  pstep p (PExit i) = Some (set_stage p i StDone).
+Proof. exact stage_drop_exits. Qed.
+(* mergeCollectionExcess (pkg/resource/backpressure.go): the same, the queue is dropped *)
+Theorem C10_stage_merge_exits : forall p i q, stage_at p i = Some (StMerge q) -> input_closed p i = true ->
+  pstep p (PExit i) = Some (set_stage p i StDone).
+Proof. exact stage_merge_exits. Qed.
+(* changesAfter (pkg/resource/collection.go): no ctx case; holding a change it first hands it to the
+   always-receiving stage behind it, then returns *)
+Theorem C10_stage_after_exits : forall p i c, stage_at p i = Some (StAfter c) -> input_closed p i = true ->
+  after_ok (p_stages p) = true ->
+  match c with
+  | None => pstep p (PExit i) = Some (set_stage p i StDone)
+  | Some m => exists p', pstep p (PXfer i) = Some p' /\ stage_at p' i = Some (StAfter None) /\
+                         input_closed p' i = true
+  end.
+Proof. exact stage_after_exits. Qed.
+(* the forwarders of Value.Pull / Collection.Pull: waiting for input they return when it is closed;
+   holding a seed or a change they return when the context is done *)
+Theorem C10_stage_fwd_exits : forall p i sd c, stage_at p i = Some (StFwd sd c) ->
+  (accepting (StFwd sd c) = true -> input_closed p i = true ->
+     pstep p (PExit i) = Some (set_stage p i StDone)) /\
+  (accepting (StFwd sd c) = false -> p_cancel p = true ->
+     pstep p (PExit i) = Some (set_stage p i StDone)).
+Proof. exact stage_fwd_exits. Qed.
+(* the forwarder of Collection.PullID *)
+Theorem C10_stage_pullid_exits : forall p i id c, stage_at p i = Some (StPullID id c) ->
+  (accepting (StPullID id c) = true -> input_closed p i = true ->
+     pstep p (PExit i) = Some (set_stage p i StDone)) /\
+  (accepting (StPullID id c) = false -> p_cancel p = true ->
+     pstep p (PExit i) = Some (set_stage p i StDone)).
+Proof. exact stage_pullid_exits. Qed.
+Print Assumptions C10_stage_after_exits.
+
+(* a transfer never uses a closed channel: the channel between stage i and i+1 is closed exactly
+   when stage i has returned, and the source channel takes no event once closed *)
+Theorem C10_pipe_no_send_on_closed : forall p,
+  (forall i p', pstep p (PXfer i) = Some p' -> input_closed p (S i) = false) /\
+  (forall m p', pstep p (PSrc m) = Some p' -> p_src_closed p = false).
+Proof. intros p. split; [exact (xfer_channel_open p) | exact (src_channel_open p)]. Qed.
+Print Assumptions C10_pipe_no_send_on_closed.
+
+(* a channel of the chain closes only after the cancel - or, for PullID, the REMOVE of its id,
+   which cancels (PullID is never the first stage: it wraps an inner Pull) *)
+Theorem C10_pipe_done_needs_cancel : forall tr stages p i,
+  forallb fresh_stage stages = true -> head_not_pullid stages = true ->
+  prun (init_pipe stages) tr = Some p -> stage_at p i = Some StDone -> p_cancel p = true.
+Proof. exact done_needs_cancel. Qed.
+Print Assumptions C10_pipe_done_needs_cancel.
+
+(* composition: after the close a complete schedule exists, is at most pmeasure long, and any
+   schedule that cannot be continued has ended every goroutine *)
+Theorem C10_pipe_all_end : forall p, p_src_closed p = true -> p_cancel p = true -> after_ok (p_stages p) = true ->
+  ((forall i, pstep p (PExit i) = None /\ pstep p (PXfer i) = None) -> all_stages_done p = true) /\
+  (exists tr p', prun p tr = Some p' /\ all_stages_done p' = true /\ (List.length tr <= pmeasure p)%nat).
+Proof. intros p H1 H2 H3. split; [exact (pipe_maximal_ends p H1 H2 H3) | exact (pipe_drains p H1 H2 H3)]. Qed.
+Print Assumptions C10_pipe_all_end.
+
+(* a subscription WITHOUT backpressure never makes the bus wait for its consumer *)
+Theorem C10_nobp_never_blocks_bus :
+  (forall p h r m, p_stages p = StDrop h :: r -> p_src_closed p = false -> exists p', pstep p (PSrc m) = Some p') /\
+  (forall p c q r m, p_stages p = StAfter c :: StMerge q :: r -> p_src_closed p = false ->
+     (exists p', pstep p (PSrc m) = Some p') \/
+     (exists p1 p2, pstep p (PXfer 0) = Some p1 /\ pstep p1 (PSrc m) = Some p2)).
+Proof. split; [exact nobp_drop_accepts | exact nobp_after_accepts]. Qed.
+Print Assumptions C10_nobp_never_blocks_bus.
+
+(* ======================================================================================
+   The writers, readers and subscribers of a resource over the bus (Bus/Res.v): what
+   "stalls writers or other subscribers" can and cannot mean.  [ts]: with / without the
+   publishing turnstile - every statement holds for both.
+   ====================================================================================== *)
+(* the bus part of the composed system is a reachable bus configuration: all theorems above apply *)
+Theorem C10_res_projects_to_bus : forall ts n tr C, rrun ts (rinit n) tr = Some C ->
+  exists btr, run (init n) btr = Some (rb C).
+Proof. exact projects_to_bus. Qed.
+Print Assumptions C10_res_projects_to_bus.
+
+(* c.mu is held across a blocking operation by at most ONE goroutine: a Delete between its commit
+   and the return of its bus.Send (collection.go: Send is called before c.mu.Unlock) *)
+Theorem C10_res_lock_holder : forall ts n tr C, rrun ts (rinit n) tr = Some C -> wfree C = false ->
+  exists d m, (nth_error (rw C) d = Some (RDelHold m) \/ nth_error (rw C) d = Some (RDelSend m)) /\
+    (forall d' p', nth_error (rw C) d' = Some p' -> holds_w p' = true -> d' = d) /\
+    rfree C = true.
+Proof. intros ts n tr C H. eapply lock_holder. eapply rrun_rreach. eauto. Qed.
+Print Assumptions C10_res_lock_holder.
+
+(* a writer that waits for c.mu waits for that Delete, or for a registration whose last step is enabled *)
+Theorem C10_res_lock_wait : forall ts n tr C w p, rrun ts (rinit n) tr = Some C -> nth_error (rw C) w = Some p ->
+  (p = RUpdLock \/ exists att, p = RDelLock att) ->
+  rstep ts C (RUpdSave w) = None -> rstep ts C (RDelGiveUp w) = None ->
+  wfree C = false \/
+  (exists k, In (k, true) (rpend C) /\ exists C', rstep ts C (RSubEnd k) = Some C').
+Proof. intros ts n tr C w p H. eapply lock_wait. eapply rrun_rreach. eauto. Qed.
+Print Assumptions C10_res_lock_wait.
+
+(* a committed writer that cannot publish waits - only with the turnstile - for the writer of the
+   oldest unpublished commit, which is EARLIER, is past every acquisition of c.mu, and does not hold
+   c.mu if the waiter does: the waits-for relation descends along commit numbers, no cycle *)
+Theorem C10_res_turnstile_wait : forall ts n tr C w p m, rrun ts (rinit n) tr = Some C ->
+  nth_error (rw C) w = Some p -> commit_of p = Some m -> in_send p = false ->
+  rstep ts C (RPublish w) = None ->
+  ts = true /\ (S (rdone C) < m)%nat /\
+  exists u q, u <> w /\ nth_error (rw C) u = Some q /\ commit_of q = Some (S (rdone C)) /\
+    (forall a, acquires_mu a u -> rstep ts C a = None) /\
+    (holds_w p = true -> holds_w q = false).
+Proof. intros ts n tr C w p m H. eapply turnstile_wait. eapply rrun_rreach. eauto. Qed.
+Print Assumptions C10_res_turnstile_wait.
+
+(* THE guarantee.  If no goroutine of the library can take a step while a call is in progress or a
+   registration is pending, then some writer is inside bus.Send in the select of a listener that is
+   NOT cancelled, whose consumer is not receiving, with its own context alive: the backpressure of
+   a live subscriber is the only thing that ever holds the system - never a cancelled or abandoned
+   subscriber, never c.mu by itself, never the turnstile. *)
+Theorem C10_res_stuck_only_backpressure : forall ts n tr C,
+  rrun ts (rinit n) tr = Some C -> stuck ts C -> busy C = true -> backpressured C.
+Proof. intros ts n tr C H. eapply stuck_only_backpressure. eapply rrun_rreach. eauto. Qed.
+Print Assumptions C10_res_stuck_only_backpressure.
+
+(* no livelock: every step of a goroutine of the library decreases rmeasure *)
+Theorem C10_res_steps_decrease : forall ts n tr C a C', rrun ts (rinit n) tr = Some C ->
+  autonomous a = true -> rstep ts C a = Some C' -> (rmeasure C' < rmeasure C)%nat.
+Proof. intros ts n tr C a C' H. eapply auto_decreases. eapply rrun_rreach. eauto. Qed.
+Print Assumptions C10_res_steps_decrease.
+
+(* after ITS cancel everything proceeds: once the subscribers of the resource are cancelled, every
+   schedule of the library's goroutines is bounded by rmeasure, and where it ends every call has
+   returned, c.mu is free, every watcher has ended and every listener channel is closed *)
+Theorem C10_res_after_cancel_all_proceeds : forall ts n tr0 C tr C', rrun ts (rinit n) tr0 = Some C ->
+  all_cancelled C = true -> forallb autonomous tr = true -> rrun ts C tr = Some C' ->
+  (List.length tr + rmeasure C' <= rmeasure C)%nat /\
+  (stuck ts C' ->
+     busy C' = false /\ wfree C' = true /\ rpend C' = [] /\
+     (forall w p, nth_error (rw C') w = Some p -> p = RIdle) /\
+     (forall k L, nth_error (ls (rb C')) k = Some L -> l_w L = WDone /\ l_closed L = true)).
+Proof. intros ts n tr0 C tr C' H. eapply after_cancel_all_proceeds. eapply rrun_rreach. eauto. Qed.
+Print Assumptions C10_res_after_cancel_all_proceeds.
+
+(* a Delete blocked in bus.Send under c.mu stalls Get, another writer's Update and a new Pull; the
+   subscriber's cancel alone lets every goroutine run to the end (with and without the turnstile) *)
+Example C10_nonvacuous_delete_blocks_everyone : forall ts, exists C,
+  rrun ts (rinit 2) delete_blocked_trace = Some C /\
+  rstep ts C RRead = None /\ rstep ts C (RUpdSave 1) = None /\ rstep ts C (RSubBegin false) = None /\
+  rstep ts C (RUpdStart 1) = None /\
+  (forall a, In a [RBus (LSelSendCtx 0); RBus (LSelListenCtx 0); RBus (LDeliver 0); RBus (LFinish 0); RReturn 0] ->
+     rstep ts C a = None) /\
+  exists C1 C2, rstep ts C (RBus (LCancel 0)) = Some C1 /\ rrun ts C1 after_cancel_trace = Some C2 /\
+    forallb autonomous after_cancel_trace = true /\ busy C2 = false /\ wfree C2 = true /\
+    rstep ts C2 RRead = Some C2.
+Proof. exact delete_blocks_everyone. Qed.
+
+Example C10_nonvacuous_turnstile_wait : exists C,
+  rrun true (rinit 2) [RSubBegin false; RSubEnd 0; RUpdStart 1; RUpdSave 1; RDelStart 0; RDelTake 0;
+                       RPublish 1; RBus (LRLock 1)]%nat = Some C /\
+  nth_error (rw C) 0 = Some (RDelHold 2) /\ nth_error (rw C) 1 = Some (RUpdSend 1) /\
+  rstep true C (RPublish 0) = None /\ rdone C = 0%nat /\ rstep true C RRead = None.
+Proof. exact turnstile_wait_witness. Qed.
